@@ -13,8 +13,11 @@ import (
 	"path/filepath"
 	"strings"
 	"sync"
+	"sync/atomic"
 	"time"
 )
+
+var fileSeq int64
 
 type SolverCfg struct {
 	Name     string
@@ -68,7 +71,11 @@ func NewSolver(work, cache string, timeout int, seed int) *Solver {
 }
 
 func runCmd(argv []string, timeout time.Duration) (string, error) {
-	ctx, cancel := context.WithTimeout(context.Background(), timeout)
+	return runCmdCtx(context.Background(), argv, timeout)
+}
+
+func runCmdCtx(parent context.Context, argv []string, timeout time.Duration) (string, error) {
+	ctx, cancel := context.WithTimeout(parent, timeout)
 	defer cancel()
 	cmd := exec.CommandContext(ctx, argv[0], argv[1:]...)
 	var out bytes.Buffer
@@ -108,7 +115,8 @@ func (s *Solver) Solve(name string, query string, wantModel bool) SolveResult {
 			}
 		}
 	}
-	file := filepath.Join(s.WorkDir, key[:24]+".smt2")
+	// identical queries can be in flight on two workers: the scratch file name must be unique per call
+	file := filepath.Join(s.WorkDir, fmt.Sprintf("%s-%d.smt2", key[:24], atomic.AddInt64(&fileSeq, 1)))
 	seedOpt := ""
 	_ = seedOpt
 	body := query + "(check-sat)\n"
@@ -117,34 +125,56 @@ func (s *Solver) Solve(name string, query string, wantModel bool) SolveResult {
 	}
 	defer os.Remove(file)
 	res := SolveResult{Status: "unknown"}
-	var outputs []string
+	tStart := time.Now()
+	// The portfolio is raced: all configurations start together, the first definite answer (unsat from
+	// anyone, sat from a configuration whose sat is trusted) wins and the others are killed.
+	type answer struct {
+		sv   SolverCfg
+		out  string
+		word string
+		dt   float64
+	}
+	ctx, cancel := context.WithCancel(context.Background())
+	ch := make(chan answer, len(solvers))
 	for _, sv := range solvers {
-		t0 := time.Now()
-		out, _ := runCmd(sv.Cmd(file, s.Timeout), time.Duration(s.Timeout+2)*time.Second)
-		dt := time.Since(t0).Seconds()
-		w := firstWord(out)
+		go func(sv SolverCfg) {
+			t0 := time.Now()
+			out, _ := runCmdCtx(ctx, sv.Cmd(file, s.Timeout), time.Duration(s.Timeout+2)*time.Second)
+			ch <- answer{sv, out, firstWord(out), time.Since(t0).Seconds()}
+		}(sv)
+	}
+	var outputs []string
+	var satBy *SolverCfg
+	for range solvers {
+		a := <-ch
 		s.mu.Lock()
 		s.Calls++
-		s.SolverS[sv.Name] += dt
+		s.SolverS[a.sv.Name] += a.dt
 		s.mu.Unlock()
-		res.Tried = append(res.Tried, fmt.Sprintf("%s:%s:%.2fs", sv.Name, w, dt))
-		outputs = append(outputs, sv.Name+": "+strings.TrimSpace(out))
-		if w == "unsat" {
-			res.Status, res.Solver, res.Seconds = "unsat", sv.Name, dt
-			break
+		if ctx.Err() != nil {
+			continue // killed after somebody else answered
 		}
-		if w == "sat" && sv.TrustSat {
-			res.Status, res.Solver, res.Seconds = "sat", sv.Name, dt
-			if wantModel {
-				mfile := file + ".m.smt2"
-				os.WriteFile(mfile, []byte(body+"(get-model)\n"), 0644)
-				mout, _ := runCmd(sv.Cmd(mfile, s.Timeout), time.Duration(s.Timeout+2)*time.Second)
-				os.Remove(mfile)
-				res.Model = mout
-			}
-			break
+		res.Tried = append(res.Tried, fmt.Sprintf("%s:%s:%.2fs", a.sv.Name, a.word, a.dt))
+		outputs = append(outputs, a.sv.Name+": "+strings.TrimSpace(a.out))
+		if a.word == "unsat" {
+			res.Status, res.Solver = "unsat", a.sv.Name
+			cancel()
+		} else if a.word == "sat" && a.sv.TrustSat {
+			res.Status, res.Solver = "sat", a.sv.Name
+			sv := a.sv
+			satBy = &sv
+			cancel()
 		}
 	}
+	cancel()
+	if satBy != nil && wantModel {
+		mfile := file + ".m.smt2"
+		os.WriteFile(mfile, []byte(body+"(get-model)\n"), 0644)
+		mout, _ := runCmd(satBy.Cmd(mfile, s.Timeout), time.Duration(s.Timeout+2)*time.Second)
+		os.Remove(mfile)
+		res.Model = mout
+	}
+	res.Seconds = time.Since(tStart).Seconds() // all solvers tried, not only the one that answered
 	res.Output = strings.Join(outputs, "\n")
 	if len(res.Output) > 4000 {
 		res.Output = res.Output[:4000]
